@@ -7,7 +7,15 @@
    line: wf TAB world TAB order          order = names joined by ',' (dependencies first)
    answer: 1 | 0                          the checker wf2_check of coq/Model/SetupWf.v (hypotheses WF / WF2)
    line: wff TAB world TAB order         answer: one 0/1 per field, in the order of wf2_fields
-     (actions vars rank var_apart elem_apart versions set_once keys words) *)
+     (actions vars rank var_apart elem_apart versions set_once keys words)
+   line: full TAB world TAB lines TAB tags TAB flavor,root,maxdepth,keep TAB env TAB aliases TAB name TAB version TAB fwd
+             TAB just TAB fuel TAB flavors TAB extra-global-tags
+     the composed model request_full of coq/Model/SetupFull.v (resolver included: no decisions in the input)
+     lines     = name:version:li+li...|...   one li per action of the table; li = - | vers~expr, each - or =text
+     tags      = name~tag~version,...        the chain files of the stack
+     version   = - | =text                   the version named on the command line
+     flavors   = native,fallback,...
+   answer: ok TAB env TAB aliases TAB decisions-taken | fail TAB decisions-taken | err TAB kind *)
 let dec_env (s : Stdlib.String.t) =
   dec_list ';' (fun kv ->
     match Stdlib.String.index_opt kv '=' with
@@ -42,8 +50,44 @@ let dec_cfg (s : Stdlib.String.t) : config =
 let dec_decisions (s : Stdlib.String.t) : (ascii list) option list =
   Stdlib.List.map (fun x -> if x = "!" then None else Some (dec_str x)) (split_sep ',' s)
 
+let dec_optstr (s : Stdlib.String.t) : (ascii list) option =
+  if s = "-" || s = "" then None else Some (dec_str (Stdlib.String.sub s 1 (Stdlib.String.length s - 1)))
+
+let dec_lineinfo (s : Stdlib.String.t) : lineinfo =
+  match Stdlib.String.split_on_char '~' s with
+  | [v; x] -> { li_version = dec_optstr v; li_expr = dec_optstr x }
+  | _ -> { li_version = None; li_expr = None }
+
+let dec_lines (s : Stdlib.String.t) =
+  match Stdlib.String.split_on_char ':' s with
+  | [n; v; l] -> ((dec_str n, dec_str v), Stdlib.List.map dec_lineinfo (split_sep '+' l))
+  | [n; v] -> ((dec_str n, dec_str v), [])
+  | _ -> failwith "bad lines"
+
+let dec_tag (s : Stdlib.String.t) =
+  match Stdlib.String.split_on_char '~' s with
+  | [n; t; v] -> ((dec_str n, dec_str t), dec_str v)
+  | _ -> failwith "bad tag"
+
+let enc_decisions (ds : (ascii list) option list) : Stdlib.String.t =
+  Stdlib.String.concat "," (Stdlib.List.map (fun d -> match d with None -> "!" | Some v -> enc_str v) ds)
+
 let handle (f : Stdlib.String.t array) : Stdlib.String.t =
   match f.(0) with
+  | "full" ->
+    let fw = { fw_products = Stdlib.List.map dec_product (split_sep '|' f.(1));
+               fw_lines = Stdlib.List.map dec_lines (split_sep '|' f.(2));
+               fw_tags = Stdlib.List.map dec_tag (split_sep ',' f.(3)) } in
+    let cfg = dec_cfg f.(4) in
+    let st = { s_env = dec_env f.(5); s_aliases = dec_env f.(6) } in
+    let fuel = nat_of_int (int_of_string f.(11)) in
+    let flavors = dec_strlist ',' f.(12) in
+    let rc = site_config (dec_strlist ',' (if Stdlib.Array.length f > 13 then f.(13) else "")) [] in
+    (match request_full_simple fw cfg rc flavors fuel st (dec_str f.(7)) (dec_optstr f.(8))
+             (bool_of_field f.(9)) (bool_of_field f.(10)) with
+     | Ok (Some st', tr) -> "ok\t" ^ enc_env st'.s_env ^ "\t" ^ enc_env st'.s_aliases ^ "\t" ^ enc_decisions tr
+     | Ok (None, tr) -> "fail\t" ^ enc_decisions tr
+     | Err k -> "err\t" ^ err_name k)
   | "req" ->
     let w = Stdlib.List.map dec_product (split_sep '|' f.(1)) in
     let cfg = dec_cfg f.(2) in
